@@ -83,32 +83,56 @@ use nohash_hasher::BuildNoHashHasher;
 
 /// The search entry point as the harness calls it, whatever the engine's current spelling of it is: the game by
 /// reference, by mutable reference or by value, and further parameters (at their `Default`) after the four known ones.
+/// what the entry point returns, read as "the move to announce, if any"
+pub trait Answer {
+    fn mv(self) -> Option<Move>;
+}
+impl Answer for Option<Move> {
+    fn mv(self) -> Option<Move> {
+        self
+    }
+}
+impl<E> Answer for Result<Move, E> {
+    fn mv(self) -> Option<Move> {
+        self.ok()
+    }
+}
+impl<E> Answer for Result<Option<Move>, E> {
+    fn mv(self) -> Option<Move> {
+        self.ok().flatten()
+    }
+}
+impl<X> Answer for (Option<Move>, X) {
+    fn mv(self) -> Option<Move> {
+        self.0
+    }
+}
 pub trait SearchEntry<M> {
     fn search(&self, game: &Game, table: &mut TranspositionTable, flag: &AtomicBool, depth: Option<u8>) -> Option<Move>;
 }
-impl<F: Fn(&Game, &mut TranspositionTable, &AtomicBool, Option<u8>) -> Option<Move>> SearchEntry<(u8,)> for F {
+impl<R: Answer, F: Fn(&Game, &mut TranspositionTable, &AtomicBool, Option<u8>) -> R> SearchEntry<(u8, R)> for F {
     fn search(&self, game: &Game, table: &mut TranspositionTable, flag: &AtomicBool, depth: Option<u8>) -> Option<Move> {
-        self(game, table, flag, depth)
+        self(game, table, flag, depth).mv()
     }
 }
-impl<F: Fn(&mut Game, &mut TranspositionTable, &AtomicBool, Option<u8>) -> Option<Move>> SearchEntry<(u16,)> for F {
+impl<R: Answer, F: Fn(&mut Game, &mut TranspositionTable, &AtomicBool, Option<u8>) -> R> SearchEntry<(u16, R)> for F {
     fn search(&self, game: &Game, table: &mut TranspositionTable, flag: &AtomicBool, depth: Option<u8>) -> Option<Move> {
-        self(&mut game.clone(), table, flag, depth)
+        self(&mut game.clone(), table, flag, depth).mv()
     }
 }
-impl<F: Fn(Game, &mut TranspositionTable, &AtomicBool, Option<u8>) -> Option<Move>> SearchEntry<(u32,)> for F {
+impl<R: Answer, F: Fn(Game, &mut TranspositionTable, &AtomicBool, Option<u8>) -> R> SearchEntry<(u32, R)> for F {
     fn search(&self, game: &Game, table: &mut TranspositionTable, flag: &AtomicBool, depth: Option<u8>) -> Option<Move> {
-        self(game.clone(), table, flag, depth)
+        self(game.clone(), table, flag, depth).mv()
     }
 }
-impl<X: Default, F: Fn(&Game, &mut TranspositionTable, &AtomicBool, Option<u8>, X) -> Option<Move>> SearchEntry<(u8, X)> for F {
+impl<R: Answer, X: Default, F: Fn(&Game, &mut TranspositionTable, &AtomicBool, Option<u8>, X) -> R> SearchEntry<(u8, X, R)> for F {
     fn search(&self, game: &Game, table: &mut TranspositionTable, flag: &AtomicBool, depth: Option<u8>) -> Option<Move> {
-        self(game, table, flag, depth, X::default())
+        self(game, table, flag, depth, X::default()).mv()
     }
 }
-impl<X: Default, F: Fn(&mut Game, &mut TranspositionTable, &AtomicBool, Option<u8>, X) -> Option<Move>> SearchEntry<(u16, X)> for F {
+impl<R: Answer, X: Default, F: Fn(&mut Game, &mut TranspositionTable, &AtomicBool, Option<u8>, X) -> R> SearchEntry<(u16, X, R)> for F {
     fn search(&self, game: &Game, table: &mut TranspositionTable, flag: &AtomicBool, depth: Option<u8>) -> Option<Move> {
-        self(&mut game.clone(), table, flag, depth, X::default())
+        self(&mut game.clone(), table, flag, depth, X::default()).mv()
     }
 }
 fn call_search<M, F: SearchEntry<M>>(f: F, game: &Game, table: &mut TranspositionTable, flag: &AtomicBool, depth: Option<u8>) -> Option<Move> {
